@@ -180,7 +180,7 @@ def replay_window(case):
     env = harness.make_env(templates=tmpl)
     bad = []
     for how in ("sync", "async"):
-        for k in range(WINDOW):
+        for k in range(0, WINDOW, 1 if how == "sync" else 3):
             def go():
                 try:
                     t = env.get_template("t1")
@@ -260,12 +260,12 @@ def run(tier: str) -> int:
                 break
     # stack window: graphs whose cut-off is the interpreter's stack, replayed from every caller depth of a period
     win = [c for c in rrec.emitted if c.get("cut") == "stack"]
-    capw = 64 if tier == "quick" else 600
+    capw = 24 if tier == "quick" else 400
     if len(win) > capw:
         win = rnd.sample(win, capw)
     for case, (tmpl, bad) in zip(win, par.pmap(replay_window, win, chunk=2)):
         ck.case(("W", str(case["g"])), nontrivial=True)
-        ck.validated(2 * WINDOW)
+        ck.validated(WINDOW + (WINDOW + 2) // 3)
         for how, k, got, msg in bad:
             e1 = case["g"]["t1"]
             ck.fail(f"stack exhaustion surfaces as {got} when render is called {k} frames deep (must be ContextDepthError): {msg}",
